@@ -664,6 +664,11 @@ func verifScribble(v reflect.Value, seen map[uintptr]bool, depth int) {
 		return
 	}
 	switch v.Kind() {
+	case reflect.Interface:
+		// the boxed value itself is a copy; what it refers to is reachable
+		if !v.IsNil() {
+			verifScribble(v.Elem(), seen, depth+1)
+		}
 	case reflect.Ptr:
 		if v.IsNil() || seen[v.Pointer()] {
 			return
